@@ -181,3 +181,112 @@ func ZZ_C15_two_instances() {
 		lastBlock = blk
 	}
 }
+
+// ZZ_C15_history: instance A executes a sequence of three ExecuteTxs calls:
+// block 1, block 2, and then either a new block 3 or a replay of block 1 or
+// block 2 (a node that re-executes blocks it already has).  Instance B
+// executes exactly the same calls but is driven independently in between:
+// it is finalised at height 1, 2 or 3 before any one of the calls (also ahead
+// of execution) or never, and once fed mempool transactions, re-initialised
+// or reopened before any one of the calls.  Every state root B returns is the
+// one A returns, and both accept or reject the same calls.
+func ZZ_C15_history() {
+	ctx := context.Background()
+	img := &zzKV{}
+	img.put("/z", []byte("0")) // a pre-existing key (the empty image is covered by ZZ_C15_two_instances)
+	A := &KVExecutor{db: img.clone(), txChan: make(chan []byte, 8)}
+	B := &KVExecutor{db: img.clone(), txChan: make(chan []byte, 8)}
+	gA, _, errA := A.InitChain(ctx, time.Unix(0, 0), 1, "c")
+	gB, _, errB := B.InitChain(ctx, time.Unix(0, 0), 1, "c")
+	zzsym.Assert(errA == nil && errB == nil && bytes.Equal(gA, gB), "same-genesis-root")
+	// the calls
+	menu1 := []string{"a=1", "a=2", "b=1", " c = 3 ", "nokv"}
+	var b1 [][]byte
+	if zzsym.Bool("b1.two") {
+		b1 = [][]byte{[]byte(menu1[zzsym.Pick("b1.tx", 3)]), []byte(menu1[zzsym.Pick("b1.tx", 3)])}
+	} else {
+		b1 = [][]byte{[]byte(menu1[zzsym.Pick("b1.tx", 5)])}
+	}
+	b2 := [][]byte{[]byte(zzTxs[zzsym.Pick("b2.tx", len(zzTxs))])}
+	type call struct {
+		h   uint64
+		txs [][]byte
+	}
+	calls := []call{{1, b1}, {2, b2}}
+	switch zzsym.Pick("third", 5) {
+	case 0:
+		calls = append(calls, call{1, b1})
+	case 1:
+		calls = append(calls, call{2, b2})
+	case 2:
+		calls = append(calls, call{3, [][]byte{[]byte("a=3")}})
+	case 3:
+		calls = append(calls, call{3, [][]byte{[]byte("b=2")}})
+	default:
+		calls = append(calls, call{3, [][]byte{[]byte("=x")}})
+	}
+	// B's independent driving
+	finalAt, finalH := -1, uint64(0)
+	switch zzsym.Pick("finalizeBeforeCall", 4) {
+	case 1:
+		finalAt = 0
+	case 2:
+		finalAt = 1
+	case 3:
+		finalAt = 2
+	}
+	if finalAt >= 0 {
+		switch zzsym.Pick("finalizeHeight", 3) { // also ahead of execution
+		case 0:
+			finalH = 1
+		case 1:
+			finalH = 2
+		case 2:
+			finalH = 3
+		}
+	}
+	otherAt, other := -1, 0
+	switch zzsym.Pick("otherBeforeCall", 3) {
+	case 1:
+		otherAt = 1
+	case 2:
+		otherAt = 2
+	}
+	if otherAt >= 0 {
+		switch zzsym.Pick("otherKind", 3) {
+		case 1:
+			other = 1
+		case 2:
+			other = 2
+		}
+	}
+	zzsym.Region("finalized-before-executing", finalAt >= 0)
+	prevA, prevB := gA, gB
+	for i, c := range calls {
+		if i == finalAt {
+			zzsym.Assert(B.SetFinal(ctx, finalH) == nil, "set-final-ok")
+		}
+		if i == otherAt {
+			switch other {
+			case 0:
+				B.InjectTx([]byte("m=1"))
+				_, _ = B.GetTxs(ctx)
+			case 1:
+				g2, _, err := B.InitChain(ctx, time.Unix(0, 0), 1, "c")
+				zzsym.Assert(err == nil && bytes.Equal(g2, gB), "init-chain-idempotent")
+			case 2:
+				B = &KVExecutor{db: B.db, txChan: make(chan []byte, 8)}
+			}
+		}
+		rA, _, eA := A.ExecuteTxs(ctx, c.txs, c.h, time.Unix(0, 0), prevA)
+		rB, _, eB := B.ExecuteTxs(ctx, c.txs, c.h, time.Unix(0, 0), prevB)
+		zzsym.Assert((eA == nil) == (eB == nil), "both-instances-accept-or-reject-the-block")
+		if eA != nil || eB != nil {
+			zzsym.Reach("call-rejected")
+			continue
+		}
+		zzsym.Assert(bytes.Equal(rA, rB), "state-root-depends-only-on-executed-transactions")
+		prevA, prevB = rA, rB
+	}
+	zzsym.Reach("history-done")
+}
